@@ -384,6 +384,52 @@ func runC15(p *an.Prog, r *an.Run, tier string) {
 	// ---- nil-embedded
 	checkNilEmbedded(p, r, scopeFns)
 
+	// ---- raw-json: a json.RawMessage is emitted verbatim; one assembled by string formatting (Sprintf, %q, concatenation)
+	// is valid JSON only for the inputs the author thought of, and an invalid one makes the reply fail to encode, so
+	// the request gets no reply at all
+	{
+		var rb []string
+		nRaw := 0
+		for _, fn := range scopeFns {
+			an.AllInstrs(fn, func(in ssa.Instruction) {
+				var src ssa.Value
+				switch x := in.(type) {
+				case *ssa.Convert:
+					if isRawMessage(x.Type()) && !isRawMessage(x.X.Type()) {
+						src = x.X
+					}
+				case *ssa.ChangeType:
+					if isRawMessage(x.Type()) && !isRawMessage(x.X.Type()) {
+						src = x.X
+					}
+				}
+				if src == nil {
+					return
+				}
+				nRaw++
+				for _, nd := range p.Derives(1, src).Nodes {
+					switch y := nd.(type) {
+					case *ssa.Call:
+						if f := an.CallObj(y); f != nil && f.Pkg() != nil && (f.Pkg().Path() == "fmt" || f.Pkg().Path() == "strconv" || (f.Pkg().Path() == "strings" && (f.Name() == "Join" || f.Name() == "Replace" || f.Name() == "ReplaceAll"))) {
+							rb = append(rb, an.FuncName(fn)+" builds a json.RawMessage with "+an.ObjString(f)+" at "+p.Pos(in.Pos())+": not valid JSON for every input (control characters, code points %q escapes differently), the reply then fails to encode")
+						}
+					case *ssa.BinOp:
+						if y.Op == token.ADD {
+							if b, ok := y.Type().Underlying().(*types.Basic); ok && b.Info()&types.IsString != 0 {
+								rb = append(rb, an.FuncName(fn)+" builds a json.RawMessage by string concatenation at "+p.Pos(in.Pos()))
+							}
+						}
+					}
+				}
+			})
+		}
+		r.Note("raw-json construction sites examined: %d", nRaw)
+		r.Check(len(rb) == 0, "raw-json", "scope", token.NoPos, "raw JSON is produced by the encoder, never by string formatting", "%s", strings.Join(dedup(rb), "; "))
+	}
+
+	// ---- nil-result: a (*T, error) call whose pointer result is used on a path where the error was not nil
+	checkNilResultUse(p, r, scopeFns)
+
 	// ---- make
 	checkMakeSizes(p, r, scopeFns, scope)
 
@@ -967,6 +1013,34 @@ func checkNilMaps(p *an.Prog, r *an.Run, fns []*ssa.Function) {
 			if initialised[fv] && onlyConstructedBy(p, fv) {
 				return
 			}
+			// a field of a package-level variable whose initialiser (package init) makes the map, and which is
+			// only ever assigned made maps afterwards
+			if root, _ := an.RootPath(ld.X); root != nil {
+				if g, isG := root.(*ssa.Global); isG {
+					initInPkg, okAll := false, true
+					for _, f2 := range p.Repo {
+						an.AllInstrs(f2, func(i3 ssa.Instruction) {
+							st, ok := i3.(*ssa.Store)
+							if !ok || an.FieldOf(st.Addr) != fv {
+								return
+							}
+							if r2, _ := an.RootPath(st.Addr); r2 != ssa.Value(g) {
+								return
+							}
+							if _, isMake := st.Val.(*ssa.MakeMap); !isMake {
+								okAll = false
+								return
+							}
+							if f2.Synthetic == "package initializer" || f2.Name() == "init" {
+								initInPkg = true
+							}
+						})
+					}
+					if initInPkg && okAll {
+						return
+					}
+				}
+			}
 			bad = append(bad, "map field "+fv.Name()+" is written in "+an.FuncName(fn)+" at "+p.Pos(in.Pos())+" but may be nil (not initialised by every construction, no nil test + make on the path): assignment to a nil map panics")
 		})
 	}
@@ -1136,4 +1210,102 @@ func checkReplyID(p *an.Prog, r *an.Run) {
 		}
 	}
 	r.Check(len(bad) == 0, "reply-id", an.FuncName(hr), hr.Pos(), "every request is dispatched and its response written", "%s", strings.Join(bad, "; "))
+}
+
+// checkNilResultUse: for calls returning (pointer, ..., error), a use of the pointer (field access, method call on
+// it, dereference) must not be reachable from the edge on which the error is known to be non-nil — "log the error and
+// carry on" then dereferences nil. The walk stops when it passes the call again (loops that retry redefine the value)
+// and uses guarded by an explicit nil test of the pointer are accepted.
+func checkNilResultUse(p *an.Prog, r *an.Run, fns []*ssa.Function) {
+	var bad []string
+	n := 0
+	for _, fn := range fns {
+		for _, c := range an.Calls(fn, false) {
+			cv := c.Value()
+			if cv == nil {
+				continue
+			}
+			sig := c.Common().Signature()
+			if sig == nil || sig.Results().Len() < 2 {
+				continue
+			}
+			if _, isPtr := sig.Results().At(0).Type().Underlying().(*types.Pointer); !isPtr {
+				continue
+			}
+			if !an.IsErrorType(sig.Results().At(sig.Results().Len() - 1).Type()) {
+				continue
+			}
+			var ptr *ssa.Extract
+			for _, ref := range *cv.Referrers() {
+				if ex, ok := ref.(*ssa.Extract); ok && ex.Index == 0 {
+					ptr = ex
+				}
+			}
+			if ptr == nil || ptr.Referrers() == nil {
+				continue
+			}
+			u := an.ErrEdges(c)
+			if len(u.Fail) == 0 {
+				continue
+			}
+			n++
+			// blocks reachable from a failure edge without passing the call again
+			nilSide := an.EdgeSet(u.Succ)
+			seen := map[*ssa.BasicBlock]bool{}
+			var work []*ssa.BasicBlock
+			for _, e := range u.Fail {
+				work = append(work, e.To)
+			}
+			for len(work) > 0 {
+				b := work[len(work)-1]
+				work = work[:len(work)-1]
+				if seen[b] || b == c.Block() {
+					continue
+				}
+				seen[b] = true
+				for i, sc := range b.Succs {
+					// a later test of the same error: only its "still non-nil" side lies on this path
+					if !an.DeadEdge(b, i) && !nilSide[an.Edge{From: b, To: sc}] {
+						work = append(work, sc)
+					}
+				}
+			}
+			for _, ref := range *ptr.Referrers() {
+				if !seen[ref.Block()] {
+					continue
+				}
+				deref := false
+				switch x := ref.(type) {
+				case *ssa.FieldAddr:
+					deref = x.X == ssa.Value(ptr)
+				case *ssa.UnOp:
+					deref = x.Op == token.MUL && x.X == ssa.Value(ptr)
+				case ssa.CallInstruction:
+					cc := x.Common()
+					if !cc.IsInvoke() && len(cc.Args) > 0 && cc.Args[0] == ssa.Value(ptr) && cc.StaticCallee() != nil && cc.StaticCallee().Signature.Recv() != nil {
+						deref = true
+					}
+				}
+				if !deref {
+					continue
+				}
+				guarded := false
+				for _, cr := range ctrlRels(ref.Block()) {
+					if cr.Op == token.NEQ && ((cr.L == ssa.Value(ptr) && isNilValue(cr.R)) || (cr.R == ssa.Value(ptr) && isNilValue(cr.L))) {
+						guarded = true
+					}
+				}
+				if !guarded {
+					bad = append(bad, an.FuncName(fn)+" uses the result of "+callName(c)+" at "+p.Pos(ref.Pos())+" on a path where that call has failed (the pointer is nil there): a malformed input from the network crashes the process")
+				}
+			}
+		}
+	}
+	r.Floor("pointer-error-calls", n, 10)
+	r.Check(len(bad) == 0, "nil-result", "scope", token.NoPos, "no use of a (pointer, error) result on the failure path", "%s", strings.Join(dedup(bad), "; "))
+}
+
+func isRawMessage(t types.Type) bool {
+	n, ok := t.(*types.Named)
+	return ok && n.Obj().Name() == "RawMessage" && n.Obj().Pkg() != nil && n.Obj().Pkg().Path() == "encoding/json"
 }
